@@ -65,7 +65,7 @@ func specLargestUnit(d time.Duration) int64 {
 // always terminates: every iteration that continues has added at least one ID.
 
 //@ func getEntityInstances
-//@ props C16 C13
+//@ props C16 C13 C05
 //@ requires [paging.args] !isnil(ctx) && !isnil(s) && !isnil(cmd)
 //@ invariant 0 [C16.page-bounds] totalInstances <= 255 && cmd.Req.Instance == 0
 //@ decreases 0 ite(len(recordIDs) < 256, 256 - len(recordIDs), 0)
